@@ -20,12 +20,19 @@ import (
 
 // ----------------------------------------------------------------------------------- push case
 
+// SlugMountStale: blobUpload.Prepare reports a cross-repository mount (201) by setting done without creating nextURL;
+// uploadBlob starts blobUpload.Run all the same, which blocks for ever receiving from the nil channel, so its deferred
+// blobUploadManager.Delete never runs. The table is keyed by the bare digest: any later push, in the same process, of
+// that digest to a repository that lacks it finds the finished upload, uploads nothing and sends the manifest.
+const SlugMountStale = "legacy-mount-leaves-stale-upload-entry"
+
 type PushFault struct {
-	// Kind: start | upload | manifest (Registry.Push); head | start | part | direct | commit | manifest (legacy PushModel)
+	// Kind: start | upload | manifest (Registry.Push); head | start | mount | part | direct | commit | manifest (legacy
+	// PushModel; "mount" = an upload start that carries mount=<digest>&from=<repository>)
 	Kind  string `json:"kind"`
 	Layer int    `json:"layer,omitempty"` // position in the manifest's layer list (mod)
 	Nth   int    `json:"nth,omitempty"`   // which request of this kind for this layer in the attempt; -1 = every one
-	Type  string `json:"type"`            // s500 s503 s400 s403 neterr neterr2 | early (answer 500 after reading half the body)
+	Type  string `json:"type"`            // s500 s503 s400 s403 neterr neterr2 | early (answer 500 after reading half the body) | s404 s405 (mount)
 }
 
 type PushAttempt struct {
@@ -36,14 +43,60 @@ type PushAttempt struct {
 	Acts  []Act `json:"acts,omitempty"` // rel K | cancel
 }
 
+// PushStep is one push of a history (legacy only): 0-2 scripted attempts, then one fault-free attempt that must
+// succeed. All pushes of a history run in ONE process against one model store; their models are subsets of the case's
+// layers (so they share digests) stored under the step's target name.
+type PushStep struct {
+	Target   int  `json:"target,omitempty"`    // index into pushTargets (mod)
+	Drop     int  `json:"drop,omitempty"`      // bit i: layer i of the case is not in this step's model (layer 0 is kept if all are dropped)
+	NoConfig bool `json:"no_config,omitempty"` // the step's model has no config blob
+	// Froms (cyclic by position in the step's layer list, config excluded): 0 = the layer has no From, k > 0 = its From is
+	// pushFroms[(k-1) mod n] (a layer of a model created FROM another model): the upload start then asks for a mount.
+	Froms    []int         `json:"froms,omitempty"`
+	SrcHas   int           `json:"src_has,omitempty"`  // bit p: before the step the repository named by layer p's From holds the blob
+	NoMount  int           `json:"no_mount,omitempty"` // bit p: the registry ignores the mount request for layer p (answers 202)
+	Present  int           `json:"present,omitempty"`  // bit p: before the step the target repository already has layer p
+	Attempts []PushAttempt `json:"attempts,omitempty"`
+}
+
 type PushCase struct {
 	Layers     []LayerSpec   `json:"layers"`
 	Config     *LayerSpec    `json:"config,omitempty"`
-	Present    int           `json:"present,omitempty"` // bit i: the registry already has layer i
+	Present    int           `json:"present,omitempty"` // bit i: the registry already has layer i (in the first push's target repository)
 	MaxStreams int           `json:"max_streams"`
 	Redirect   int           `json:"redirect,omitempty"` // legacy: bit i: PATCH of layer i is answered 307 to a direct-upload URL
 	Attempts   []PushAttempt `json:"attempts"`
 	Via        string        `json:"via,omitempty"` // "" Registry.Push | "legacy" server.PushModel
+	// Pushes (legacy, optional): a history of consecutive pushes in one process. Empty = one push of every layer to Name
+	// scripted by Attempts (the only form that existed before; Attempts is not used when Pushes is set).
+	Pushes []PushStep `json:"pushes,omitempty"`
+}
+
+// pushTarget is a name a history pushes to; Repo() is the key under which the fake registry books what it holds.
+type pushTarget struct{ Host, NS, Model string }
+
+func (t pushTarget) Name() string { return t.Host + "/" + t.NS + "/" + t.Model + ":" + Tag }
+func (t pushTarget) Repo() string { return t.Host + "/" + t.NS + "/" + t.Model }
+
+var pushTargets = []pushTarget{{Host, NS, Model}, {Host, "ns2", Model}, {"h2.test", NS, Model}}
+
+// pushFroms: values of Layer.From as create writes them (model.Name.DisplayShortest of the parent, or the path of the
+// GGUF blob) and the repository blobUpload.Prepare derives from them (ParseModelPath(From).GetNamespaceRepository();
+// the host of From is not part of a mount request). If the code under test derives something else the fake simply
+// does not find the blob there and answers 202.
+var pushFroms = []struct{ From, Repo string }{
+	{Host + "/" + NS + "/" + Model + ":" + Tag, NS + "/" + Model}, // the first target's own name
+	{Host + "/ns2/" + Model + ":" + Tag, "ns2/" + Model},           // the second target's name
+	{"base:latest", "library/base"},
+	{"h2.test/ns1/base:7b", "ns1/base"},
+	{"/models/blobs/sha256-" + strings.Repeat("0", 64), "library/"}, // created from a GGUF file: From is a path
+}
+
+func (c *PushCase) steps() []PushStep {
+	if len(c.Pushes) == 0 {
+		return []PushStep{{Attempts: c.Attempts}}
+	}
+	return c.Pushes
 }
 
 func GenPush(t *rapid.T, via string) PushCase {
@@ -73,8 +126,7 @@ func GenPush(t *rapid.T, via string) PushCase {
 			c.Redirect = rapid.IntRange(0, 31).Draw(t, "redirect")
 		}
 	}
-	na := rapid.IntRange(1, 3).Draw(t, "nattempts")
-	for i := 0; i < na; i++ {
+	genAttempt := func() PushAttempt {
 		var a PushAttempt
 		nf := rapid.SampledFrom([]int{0, 1, 1, 1, 2, 2, 3}).Draw(t, "nfaults")
 		for j := 0; j < nf; j++ {
@@ -82,6 +134,9 @@ func GenPush(t *rapid.T, via string) PushCase {
 				Type: rapid.SampledFrom(types).Draw(t, "ftype")}
 			if via == "legacy" {
 				f.Nth = rapid.SampledFrom([]int{0, 0, 1, -1, -1}).Draw(t, "fnth")
+			}
+			if f.Kind == "mount" && rapid.IntRange(0, 1).Draw(t, "mounterr") == 0 {
+				f.Type = rapid.SampledFrom([]string{"s404", "s405"}).Draw(t, "mtype")
 			}
 			a.Faults = append(a.Faults, f)
 		}
@@ -97,7 +152,47 @@ func GenPush(t *rapid.T, via string) PushCase {
 				a.Acts = append(a.Acts, Act{Op: "rel", K: rapid.IntRange(0, 3).Draw(t, "k")})
 			}
 		}
-		c.Attempts = append(c.Attempts, a)
+		return a
+	}
+	if via == "legacy" && rapid.IntRange(0, 9).Draw(t, "history") >= 4 {
+		// a history: 1-3 consecutive pushes in one process of models that share layer digests, to the same or to other
+		// repositories, some layers carrying From (cross-repository mount)
+		kinds = append(kinds, "mount", "mount")
+		np := rapid.SampledFrom([]int{1, 2, 2, 2, 3, 3}).Draw(t, "npushes")
+		for si := 0; si < np; si++ {
+			var st PushStep
+			st.Target = rapid.SampledFrom([]int{0, 0, 1, 1, 2, 2}).Draw(t, "target")
+			if rapid.IntRange(0, 2).Draw(t, "anydrop") == 0 {
+				st.Drop = rapid.IntRange(0, 15).Draw(t, "drop")
+			}
+			st.NoConfig = rapid.IntRange(0, 3).Draw(t, "noconfig") == 0
+			if rapid.IntRange(0, 2).Draw(t, "anyfrom") > 0 {
+				nfr := rapid.IntRange(1, 4).Draw(t, "nfroms")
+				for j := 0; j < nfr; j++ {
+					st.Froms = append(st.Froms, rapid.SampledFrom([]int{0, 1, 1, 2, 2, 3, 3, 4, 5}).Draw(t, "from"))
+				}
+				st.SrcHas = 15
+				if rapid.IntRange(0, 2).Draw(t, "srcpartial") == 0 {
+					st.SrcHas = rapid.IntRange(0, 15).Draw(t, "srchas")
+				}
+				if rapid.IntRange(0, 3).Draw(t, "anynomount") == 0 {
+					st.NoMount = rapid.IntRange(1, 15).Draw(t, "nomount")
+				}
+			}
+			if rapid.IntRange(0, 3).Draw(t, "steppresent") == 0 {
+				st.Present = rapid.IntRange(0, 31).Draw(t, "spresent")
+			}
+			na := rapid.SampledFrom([]int{0, 0, 1, 1, 2}).Draw(t, "nsattempts")
+			for i := 0; i < na; i++ {
+				st.Attempts = append(st.Attempts, genAttempt())
+			}
+			c.Pushes = append(c.Pushes, st)
+		}
+		return c
+	}
+	na := rapid.IntRange(1, 3).Draw(t, "nattempts")
+	for i := 0; i < na; i++ {
+		c.Attempts = append(c.Attempts, genAttempt())
 	}
 	return c
 }
@@ -105,12 +200,16 @@ func GenPush(t *rapid.T, via string) PushCase {
 // ------------------------------------------------------------------------- recording registry
 
 type pushAttemptState struct {
+	step       int
 	idx        int
 	script     *PushAttempt
-	accepted   map[string]string // blob hex -> how it was accepted in this attempt
+	accepted   map[string]string // blob hex -> how the push's target repository accepted it in this attempt
 	failed     map[string]string // blob hex -> last failure of a request for it in this attempt
 	inflight   map[string]int    // blob hex -> requests being answered
 	counts     map[string]int    // kind:layer -> requests so far
+	headMiss   map[string]bool   // blob hex -> a HEAD in the target repository was answered 404 in this attempt
+	lastMiss   string            // the blob of the most recent such HEAD
+	mounted    []string          // blobs mounted with 201 in this attempt
 	gates      []*gate
 	keys       map[string]int
 	manifestOK bool
@@ -121,34 +220,142 @@ type pushAttemptState struct {
 
 type upload struct {
 	id   string
-	hex  string // known at start (Registry.Push) or at commit (legacy)
+	hex  string // known at start (Registry.Push, mount request) or derived from the preceding HEAD (legacy)
+	repo string // repository key the upload session belongs to
+	host string
+	base string // "/v2/<ns>/<model>/"
 	data []byte
 }
 
-// PushReg is the recording fake registry of the push side.
+// pushStepState is one push of the history: target name, the model stored under it, which layers carry From.
+type pushStepState struct {
+	spec    PushStep
+	target  pushTarget
+	version *Version
+	from    map[string]int // blob hex -> index into pushFroms
+}
+
+// PushReg is the recording fake registry of the push side. It serves any number of hosts and repositories and books
+// per repository (host/namespace/model) which blobs it holds: present before, uploaded and committed there, or
+// mounted there with 201.
 type PushReg struct {
-	mu      sync.Mutex
-	c       *PushCase
-	Version *Version
-	store   map[string]bool // blobs the registry holds
-	uploads map[string]*upload
-	nextID  int
-	cur     *pushAttemptState
-	log     []string
-	viol    *Violation
-	stored  []byte // last accepted manifest
-	classes map[string]bool
+	mu          sync.Mutex
+	c           *PushCase
+	Version     *Version // the model of the current push
+	steps       []*pushStepState
+	step        *pushStepState
+	store       map[string]map[string]bool // repository key -> blobs it holds
+	mountedEver map[string]string          // blob hex -> repository it was first mounted into (201) in this history
+	uploads     map[string]*upload
+	nextID      int
+	cur         *pushAttemptState
+	log         []string
+	viol        *Violation
+	stored      []byte // last accepted manifest
+	classes     map[string]bool
+}
+
+func pushManifestJSON(layers []*Blob, config *Blob, froms map[string]string) []byte {
+	if len(froms) == 0 {
+		return manifestJSON(layers, config, false)
+	}
+	var sb strings.Builder
+	sb.WriteString(`{"schemaVersion":2,"mediaType":"application/vnd.docker.distribution.manifest.v2+json",`)
+	if config != nil {
+		fmt.Fprintf(&sb, `"config":{"mediaType":"application/vnd.docker.container.image.v1+json","digest":"%s","size":%d},`, config.Digest(), config.Size())
+	}
+	sb.WriteString(`"layers":[`)
+	for i, l := range layers {
+		if i > 0 {
+			sb.WriteByte(',')
+		}
+		fmt.Fprintf(&sb, `{"mediaType":"application/vnd.ollama.image.model","digest":"%s","size":%d`, l.Digest(), l.Size())
+		if f := froms[l.Hex]; f != "" {
+			fmt.Fprintf(&sb, `,"from":%q`, f)
+		}
+		sb.WriteByte('}')
+	}
+	sb.WriteString(`]}`)
+	return []byte(sb.String())
 }
 
 func NewPushReg(c *PushCase) *PushReg {
-	r := &PushReg{c: c, store: map[string]bool{}, uploads: map[string]*upload{}, classes: map[string]bool{}}
-	r.Version = BuildVersions(c.Layers, c.Config, nil, nil)[0]
-	for i, b := range r.Version.Layers {
-		if c.Present>>uint(i)&1 == 1 {
-			r.store[b.Hex] = true
+	r := &PushReg{c: c, store: map[string]map[string]bool{}, mountedEver: map[string]string{}, uploads: map[string]*upload{}, classes: map[string]bool{}}
+	seen := map[string]bool{}
+	base := BuildBlobs(c.Layers, seen, 0)
+	var cfg *Blob
+	if c.Config != nil {
+		cfg = BuildBlobs([]LayerSpec{*c.Config}, seen, 100)[0]
+	}
+	for _, sp := range c.steps() {
+		st := &pushStepState{spec: sp, target: pushTargets[mod(sp.Target, len(pushTargets))], from: map[string]int{}}
+		var layers []*Blob
+		for i, b := range base {
+			if sp.Drop>>uint(i)&1 == 0 {
+				layers = append(layers, b)
+			}
+		}
+		if len(layers) == 0 {
+			layers = base[:1]
+		}
+		cf := cfg
+		if sp.NoConfig {
+			cf = nil
+		}
+		froms := map[string]string{}
+		if len(sp.Froms) > 0 {
+			for p, b := range layers {
+				if k := sp.Froms[p%len(sp.Froms)]; k != 0 {
+					fi := mod(k-1, len(pushFroms))
+					st.from[b.Hex] = fi
+					froms[b.Hex] = pushFroms[fi].From
+				}
+			}
+		}
+		st.version = &Version{Config: cf}
+		st.version.Manifest = pushManifestJSON(layers, cf, froms)
+		st.version.Hex = HexSum(st.version.Manifest)
+		st.version.Layers = append(st.version.Layers, layers...)
+		if cf != nil {
+			st.version.Layers = append(st.version.Layers, cf)
+		}
+		r.steps = append(r.steps, st)
+	}
+	r.step = r.steps[0]
+	r.Version = r.step.version
+	return r
+}
+
+func (r *PushReg) has(repo, hexsum string) bool { return r.store[repo][hexsum] }
+
+func (r *PushReg) put(repo, hexsum string) {
+	if r.store[repo] == nil {
+		r.store[repo] = map[string]bool{}
+	}
+	r.store[repo][hexsum] = true
+}
+
+// beginStep makes push si the current one and applies what the case says the registry holds before it.
+func (r *PushReg) beginStep(si int) {
+	r.mu.Lock()
+	defer r.mu.Unlock()
+	st := r.steps[si]
+	r.step, r.Version = st, st.version
+	present := st.spec.Present
+	if si == 0 {
+		present |= r.c.Present
+	}
+	for p, b := range st.version.Layers {
+		if present>>uint(p)&1 == 1 {
+			r.put(st.target.Repo(), b.Hex)
+		}
+		if fi, ok := st.from[b.Hex]; ok && st.spec.SrcHas>>uint(p)&1 == 1 {
+			r.put(st.target.Host+"/"+pushFroms[fi].Repo, b.Hex)
 		}
 	}
-	return r
+	if len(r.steps) > 1 || len(r.c.Pushes) > 0 {
+		r.logf("push %d: %s (%d layers, %d with From)", si, st.target.Name(), len(st.version.Layers), len(st.from))
+	}
 }
 
 func (r *PushReg) logf(format string, a ...any) {
@@ -169,17 +376,27 @@ func (r *PushReg) Note(format string, a ...any) {
 	r.mu.Unlock()
 }
 
-func (r *PushReg) begin(idx int) {
+func (r *PushReg) begin(si, idx int) {
 	r.mu.Lock()
 	defer r.mu.Unlock()
-	a := &pushAttemptState{idx: idx, accepted: map[string]string{}, failed: map[string]string{}, inflight: map[string]int{},
-		counts: map[string]int{}, keys: map[string]int{}}
-	if idx < len(r.c.Attempts) {
-		a.script = &r.c.Attempts[idx]
+	a := &pushAttemptState{step: si, idx: idx, accepted: map[string]string{}, failed: map[string]string{}, inflight: map[string]int{},
+		counts: map[string]int{}, keys: map[string]int{}, headMiss: map[string]bool{}}
+	if sc := r.steps[si].spec.Attempts; idx < len(sc) {
+		a.script = &sc[idx]
 	}
 	r.cur = a
-	r.logf("push attempt %d begins", idx)
+	r.logf("%s begins", r.logWhere())
 }
+
+// where names the current attempt in messages ("attempt 1" for a single push, "push 2 attempt 0" in a history).
+func (r *PushReg) where() string {
+	if len(r.steps) == 1 && len(r.c.Pushes) == 0 {
+		return fmt.Sprintf("attempt %d", r.cur.idx)
+	}
+	return fmt.Sprintf("push %d attempt %d", r.cur.step, r.cur.idx)
+}
+
+func (r *PushReg) logWhere() string { return "push " + strings.TrimPrefix(r.where(), "push ") }
 
 func (r *PushReg) Pending() []string {
 	r.mu.Lock()
@@ -278,6 +495,10 @@ func pushStatus(req *http.Request, typ string) (*http.Response, error, bool) {
 		return statusResp(req, 400, "DIGEST_INVALID"), nil, true
 	case "s403":
 		return statusResp(req, 403, "DENIED"), nil, true
+	case "s404":
+		return statusResp(req, 404, "NAME_UNKNOWN"), nil, true
+	case "s405":
+		return statusResp(req, 405, "UNSUPPORTED"), nil, true
 	case "neterr":
 		return nil, errReset, true
 	case "neterr2":
@@ -292,7 +513,7 @@ func emptyResp(req *http.Request, code int, hdr http.Header) *http.Response {
 	return resp
 }
 
-// layerDone books the outcome of a request that concerns one layer.
+// layerDone books the outcome of a request that concerns one layer in the current push's target repository.
 func (r *PushReg) layerDone(hexsum, what string, ok bool) {
 	a := r.cur
 	if ok {
@@ -306,6 +527,19 @@ func (r *PushReg) layerDone(hexsum, what string, ok bool) {
 	}
 }
 
+// splitV2 splits "/v2/<ns>/<model>/<rest>".
+func splitV2(path string) (ns, model, rest string, ok bool) {
+	p, found := strings.CutPrefix(path, "/v2/")
+	if !found {
+		return "", "", "", false
+	}
+	parts := strings.SplitN(p, "/", 3)
+	if len(parts) != 3 {
+		return "", "", "", false
+	}
+	return parts[0], parts[1], parts[2], true
+}
+
 // RoundTrip implements http.RoundTripper.
 func (r *PushReg) RoundTrip(req *http.Request) (resp *http.Response, err error) {
 	ctx := req.Context()
@@ -317,7 +551,7 @@ func (r *PushReg) RoundTrip(req *http.Request) (resp *http.Response, err error) 
 		return nil, context.Cause(ctx)
 	}
 	path := req.URL.Path
-	repo := "/v2/" + NS + "/" + Model + "/"
+	host := req.URL.Host
 	q := req.URL.Query()
 	readBody := func(limitHalf bool) error {
 		if req.Body == nil {
@@ -332,47 +566,105 @@ func (r *PushReg) RoundTrip(req *http.Request) (resp *http.Response, err error) 
 		body = b
 		return err
 	}
+	ns, model, rest, isV2 := splitV2(path)
+	repoKey := host + "/" + ns + "/" + model
+	if len(r.c.Pushes) == 0 && ns == NS && model == Model {
+		repoKey = pushTargets[0].Repo() // single push: one registry, whatever the URL calls its host (as before histories existed)
+	}
+	base := "/v2/" + ns + "/" + model + "/"
+	if isV2 {
+		r.mu.Lock()
+		own := repoKey == r.step.target.Repo()
+		held := r.has(repoKey, strings.TrimPrefix(rest, "blobs/sha256:"))
+		r.mu.Unlock()
+		if !own {
+			// a request about a repository that is not the current push's target: answered from the books, never counted
+			r.Note("  %s %s%s (not the repository being pushed to)", req.Method, repoKey, "/"+rest)
+			if req.Method == "HEAD" && held {
+				return emptyResp(req, 200, nil), nil
+			}
+			return statusResp(req, 404, "NAME_UNKNOWN"), nil
+		}
+	}
 	switch {
-	case req.Method == "PUT" && path == repo+"manifests/"+Tag:
+	case isV2 && req.Method == "PUT" && rest == "manifests/"+Tag:
 		if err := readBody(false); err != nil {
 			return nil, err
 		}
 		return r.manifestPut(req, body)
 
-	case req.Method == "HEAD" && strings.HasPrefix(path, repo+"blobs/sha256:"):
-		hexsum := strings.TrimPrefix(path, repo+"blobs/sha256:")
-		return r.layerRequest(req, "head", hexsum, 0, func() (*http.Response, bool, string) {
-			if r.store[hexsum] {
+	case isV2 && req.Method == "HEAD" && strings.HasPrefix(rest, "blobs/sha256:"):
+		hexsum := strings.TrimPrefix(rest, "blobs/sha256:")
+		return r.layerRequest(req, "head", "", hexsum, 0, func() (*http.Response, bool, string) {
+			if r.has(repoKey, hexsum) {
 				return emptyResp(req, 200, nil), true, "HEAD hit"
 			}
+			r.cur.headMiss[hexsum] = true
+			r.cur.lastMiss = hexsum
 			return statusResp(req, 404, "BLOB_UNKNOWN"), false, ""
 		})
 
-	case req.Method == "POST" && path == repo+"blobs/uploads/":
+	case isV2 && req.Method == "POST" && rest == "blobs/uploads/":
+		mount := strings.TrimPrefix(q.Get("mount"), "sha256:")
+		from := q.Get("from")
 		hexsum := strings.TrimPrefix(q.Get("digest"), "sha256:")
+		kind2 := ""
+		if mount != "" {
+			// legacy start of a layer that has From: cross-repository mount request
+			kind2 = "mount"
+			if hexsum == "" {
+				hexsum = mount
+			}
+		}
 		if hexsum == "" {
-			// legacy start: the layer is not named; uploads are sequential, so it is the first
-			// layer of the manifest that is neither accepted nor present
+			// legacy start: the layer is not named; uploads are sequential and each follows the HEAD that missed
 			hexsum = r.legacyNext()
 		}
-		return r.layerRequest(req, "start", hexsum, 0, func() (*http.Response, bool, string) {
-			if q.Get("digest") != "" && r.store[hexsum] {
+		return r.layerRequest(req, "start", kind2, hexsum, 0, func() (*http.Response, bool, string) {
+			if q.Get("digest") != "" && r.has(repoKey, hexsum) {
 				return emptyResp(req, 200, nil), true, "upload start answered without Location (exists)"
 			}
+			if mount != "" {
+				r.classes["legacy_mount_requested"] = true
+				pos := r.pos(hexsum)
+				switch {
+				case pos >= 0 && r.step.spec.NoMount>>uint(pos)&1 == 1:
+					r.classes["legacy_mount_ignored_202"] = true
+					r.logf("    the registry ignores mount=…&from=%s and opens an upload session", from)
+				case r.has(host+"/"+from, hexsum) || r.has(repoKey, hexsum):
+					r.put(repoKey, hexsum)
+					if _, ok := r.mountedEver[hexsum]; !ok {
+						r.mountedEver[hexsum] = repoKey
+					}
+					r.cur.mounted = append(r.cur.mounted, hexsum)
+					r.classes["legacy_mount_201"] = true
+					loc := "https://" + host + base + "blobs/sha256:" + hexsum
+					return emptyResp(req, 201, http.Header{"Location": {loc}, "Docker-Content-Digest": {"sha256:" + hexsum}}), true,
+						fmt.Sprintf("mounted from %s into %s (201)", from, repoKey)
+				default:
+					r.classes["legacy_mount_source_lacks_blob_202"] = true
+					r.logf("    repository %q does not hold the blob: mount not possible, the registry opens an upload session", from)
+				}
+			}
 			r.nextID++
-			u := &upload{id: strconv.Itoa(r.nextID), hex: hexsum}
+			u := &upload{id: strconv.Itoa(r.nextID), hex: hexsum, repo: repoKey, host: host, base: base}
 			r.uploads[u.id] = u
-			loc := "https://" + Host + repo + "blobs/uploads/" + u.id
+			loc := "https://" + host + base + "blobs/uploads/" + u.id
 			return emptyResp(req, 202, http.Header{"Location": {loc}, "Docker-Upload-Location": {loc}}), false, ""
 		})
 
-	case strings.HasPrefix(path, repo+"blobs/uploads/") || strings.HasPrefix(path, "/direct/"):
+	case isV2 && strings.HasPrefix(rest, "blobs/uploads/") || strings.HasPrefix(path, "/direct/"):
 		direct := strings.HasPrefix(path, "/direct/")
-		id := strings.TrimPrefix(strings.TrimPrefix(path, repo+"blobs/uploads/"), "/direct/")
+		id := strings.TrimPrefix(path, "/direct/")
+		if !direct {
+			id = strings.TrimPrefix(rest, "blobs/uploads/")
+		}
 		r.mu.Lock()
 		u := r.uploads[id]
+		own := u != nil && u.repo == r.step.target.Repo()
 		r.mu.Unlock()
-		if u == nil {
+		if u == nil || !own {
+			r.Note("  %s %s: no such upload session in the repository being pushed to", req.Method, req.URL.Path)
 			return statusResp(req, 404, "BLOB_UPLOAD_UNKNOWN"), nil
 		}
 		switch {
@@ -385,7 +677,7 @@ func (r *PushReg) RoundTrip(req *http.Request) (resp *http.Response, err error) 
 		case req.Method == "PATCH":
 			pos := r.pos(u.hex)
 			return r.upload(req, "part", u, readBody, func() (*http.Response, bool, string) {
-				loc := "https://" + Host + repo + "blobs/uploads/" + u.id
+				loc := "https://" + u.host + u.base + "blobs/uploads/" + u.id
 				hdr := http.Header{"Location": {loc}, "Docker-Upload-Location": {loc}}
 				if r.c.Redirect>>uint(max(pos, 0))&1 == 1 {
 					hdr.Set("Location", "https://direct.example.net/direct/"+u.id)
@@ -400,7 +692,7 @@ func (r *PushReg) RoundTrip(req *http.Request) (resp *http.Response, err error) 
 				if HexSum(body) != u.hex {
 					return statusResp(req, 400, "DIGEST_INVALID"), false, "uploaded bytes do not match the digest"
 				}
-				r.store[u.hex] = true
+				r.put(u.repo, u.hex)
 				return emptyResp(req, 201, nil), true, "upload PUT"
 			})
 		case req.Method == "PUT":
@@ -410,7 +702,7 @@ func (r *PushReg) RoundTrip(req *http.Request) (resp *http.Response, err error) 
 				if HexSum(u.data) != hexsum || hexsum != u.hex {
 					return statusResp(req, 400, "DIGEST_INVALID"), false, fmt.Sprintf("commit of %d uploaded bytes does not match the digest", len(u.data))
 				}
-				r.store[hexsum] = true
+				r.put(u.repo, hexsum)
 				return emptyResp(req, 201, nil), true, "upload commit"
 			})
 		}
@@ -419,9 +711,14 @@ func (r *PushReg) RoundTrip(req *http.Request) (resp *http.Response, err error) 
 	return statusResp(req, 400, "UNSUPPORTED"), nil
 }
 
+// legacyNext names the layer an anonymous legacy upload start is about: uploadBlob sends it right after the HEAD that
+// was answered 404 (fallback: the first layer of the manifest not yet accepted).
 func (r *PushReg) legacyNext() string {
 	r.mu.Lock()
 	defer r.mu.Unlock()
+	if r.cur.lastMiss != "" {
+		return r.cur.lastMiss
+	}
 	for _, b := range r.Version.Layers {
 		if _, ok := r.cur.accepted[b.Hex]; !ok {
 			return b.Hex
@@ -430,14 +727,20 @@ func (r *PushReg) legacyNext() string {
 	return ""
 }
 
-// layerRequest answers a body-less request about one layer (HEAD, upload start).
-func (r *PushReg) layerRequest(req *http.Request, kind, hexsum string, gateBit int, answer func() (*http.Response, bool, string)) (*http.Response, error) {
+// layerRequest answers a body-less request about one layer (HEAD, upload start). kind2 ("mount") is a second fault
+// address for the same request.
+func (r *PushReg) layerRequest(req *http.Request, kind, kind2, hexsum string, gateBit int, answer func() (*http.Response, bool, string)) (*http.Response, error) {
 	r.mu.Lock()
 	pos := r.pos(hexsum)
 	a := r.cur
 	a.inflight[hexsum]++
-	r.logf("  %s %s layer %d", req.Method, kind, pos)
+	r.logf("  %s %s layer %d%s", req.Method, kind, pos, map[bool]string{true: " (mount request)"}[kind2 == "mount"])
 	f := r.fault(kind, pos)
+	if kind2 != "" {
+		if f2 := r.fault(kind2, pos); f == nil {
+			f = f2
+		}
+	}
 	gated := r.gateBit(pos, gateBit)
 	r.mu.Unlock()
 	if gated {
@@ -454,6 +757,9 @@ func (r *PushReg) layerRequest(req *http.Request, kind, hexsum string, gateBit i
 	a.inflight[hexsum]--
 	if f != nil {
 		if resp, err, ok := pushStatus(req, f.Type); ok {
+			if f.Kind == "mount" {
+				r.classes["legacy_mount_error"] = true
+			}
 			r.layerDone(hexsum, fmt.Sprintf("%s: scripted %s", kind, f.Type), false)
 			return resp, err
 		}
@@ -517,17 +823,19 @@ func (r *PushReg) upload(req *http.Request, kind string, u *upload, readBody fun
 	return resp, nil
 }
 
-// manifestPut is where the ordering oracle lives: when the manifest arrives, every layer it lists
-// must have been accepted in this push, and no request about a layer may still be open.
+// manifestPut is where the ordering oracle lives: when the manifest arrives for the push's target repository, every
+// layer it lists must have been accepted by THAT repository in this push (HEAD hit, upload committed, mounted with
+// 201), the repository must hold it, and no request about a layer may still be open.
 func (r *PushReg) manifestPut(req *http.Request, body []byte) (*http.Response, error) {
 	r.mu.Lock()
 	defer r.mu.Unlock()
 	a := r.cur
+	repo := r.step.target.Repo()
 	a.manifests++
 	r.logf("  PUT manifest (%d bytes)", len(body))
 	var m storedManifest
 	if err := json.Unmarshal(body, &m); err != nil {
-		r.setViol("attempt %d: the manifest PUT body does not parse: %v", a.idx, err)
+		r.setViol("%s: the manifest PUT body does not parse: %v", r.where(), err)
 		return statusResp(req, 400, "MANIFEST_INVALID"), nil
 	}
 	var listed []string
@@ -544,7 +852,7 @@ func (r *PushReg) manifestPut(req *http.Request, body []byte) (*http.Response, e
 		want = append(want, b.Hex)
 	}
 	if strings.Join(listed, ",") != strings.Join(want, ",") {
-		r.setViol("attempt %d: the manifest sent lists layers %v, the local manifest lists %v", a.idx, short(listed), short(want))
+		r.setViol("%s: the manifest sent lists layers %v, the local manifest lists %v", r.where(), short(listed), short(want))
 	}
 	for i, h := range want {
 		if _, ok := a.accepted[h]; !ok {
@@ -553,19 +861,28 @@ func (r *PushReg) manifestPut(req *http.Request, body []byte) (*http.Response, e
 				state = "its last request failed (" + f + ")"
 			} else if a.inflight[h] > 0 {
 				state = "a request about it is still being answered"
+			} else if a.headMiss[h] && a.counts[fmt.Sprintf("start:%d", i)] == 0 {
+				state = "its HEAD was answered 404 and no upload was started"
 			}
 			slug := ""
 			if r.c.Via == "" && r.Version.Config != nil && h == r.Version.Config.Hex && state == "no request about it was answered yet" {
 				slug = SlugPushConfig
 				state += " (it is the manifest's config blob, which Registry.Push never uploads)"
 			}
-			r.setViolSlug(slug, "attempt %d: the manifest PUT arrived before layer %d (sha256:%s…) was accepted by the registry: %s", a.idx, i, h[:12], state)
+			if into, ok := r.mountedEver[h]; ok && r.c.Via == "legacy" && !r.has(repo, h) && a.headMiss[h] && a.counts[fmt.Sprintf("start:%d", i)] == 0 {
+				// signature of the stale blobUploadManager entry: the digest was mounted (201) earlier in this process,
+				// blobUpload.Run never ends after a mount, so the "done" upload stays registered under the bare digest
+				// and a later push of that digest anywhere else waits on it instead of uploading
+				slug = SlugMountStale
+				state += fmt.Sprintf(" (the digest was mounted into %s earlier in this process; the upload registered for it then is still in blobUploadManager, marked done)", into)
+			}
+			r.setViolSlug(slug, "%s: the manifest PUT for %s arrived before layer %d (sha256:%s…) was accepted by that repository: %s", r.where(), repo, i, h[:12], state)
 		}
 		if a.inflight[h] > 0 {
-			r.setViol("attempt %d: the manifest PUT arrived while a request about layer %d is still being answered", a.idx, i)
+			r.setViol("%s: the manifest PUT arrived while a request about layer %d is still being answered", r.where(), i)
 		}
-		if !r.store[h] {
-			r.setViol("attempt %d: the manifest PUT arrived but the registry does not hold layer %d (sha256:%s…)", a.idx, i, h[:12])
+		if !r.has(repo, h) {
+			r.setViol("%s: the manifest PUT arrived but repository %s does not hold layer %d (sha256:%s…)", r.where(), repo, i, h[:12])
 		}
 	}
 	if f := r.fault("manifest", 0); f != nil {
@@ -606,23 +923,35 @@ type PushEnv struct {
 	Known    func(string) bool
 	Excluded func(string)
 	SettleS  int // virtual seconds to let pass after every attempt (background goroutines of the code under test)
+	// DropUpload (legacy, optional) removes the upload registered under a digest from the code under test's process-wide
+	// upload table and reports whether there was one: the repair a fixed uploader performs itself after a mount, applied
+	// by the harness while SlugMountStale is a listed finding.
+	DropUpload func(digest string) bool
+}
+
+// NamedPushDriver is implemented by drivers that can push any of the history's names (Begin pushes Name).
+type NamedPushDriver interface {
+	BeginPush(ctx context.Context, name string) <-chan error
 }
 
 // SeedStore writes the model into a store directory (same layout for blob.DiskCache and the
 // legacy model store): blobs/sha256-<hex>, manifests/<host>/<ns>/<model>/<tag>.
-func SeedStore(dir string, v *Version) {
+func SeedStore(dir string, v *Version) { seedStoreAt(dir, v, pushTargets[0]) }
+
+func seedStoreAt(dir string, v *Version, t pushTarget) {
 	must := func(err error) {
 		if err != nil {
 			panic(err)
 		}
 	}
+	link := filepath.Join(dir, "manifests", t.Host, t.NS, t.Model, Tag)
 	must(os.MkdirAll(filepath.Join(dir, "blobs"), 0o755))
-	must(os.MkdirAll(filepath.Dir(LinkPath(dir)), 0o755))
+	must(os.MkdirAll(filepath.Dir(link), 0o755))
 	for _, b := range v.Layers {
 		must(os.WriteFile(BlobPath(dir, b.Hex), b.Data, 0o644))
 	}
 	must(os.WriteFile(BlobPath(dir, v.Hex), v.Manifest, 0o644))
-	must(os.WriteFile(LinkPath(dir), v.Manifest, 0o644))
+	must(os.WriteFile(link, v.Manifest, 0o644))
 }
 
 func RunPush(c PushCase, env PushEnv) (info Info, err error) {
@@ -650,129 +979,196 @@ func RunPush(c PushCase, env PushEnv) (info Info, err error) {
 	if c.Present != 0 {
 		classes["registry_already_has_some_layer"] = true
 	}
-	for ai := 0; ai <= len(c.Attempts); ai++ {
-		final := ai == len(c.Attempts)
-		reg.begin(ai)
-		ctx, cancel := context.WithCancel(context.Background())
-		done := drv.Begin(ctx)
-		var res error
-		var idle time.Duration
-		step := 20 * time.Millisecond
-		cancelled := false
-		cursor := 0
-	loop:
-		for {
-			synctest.Wait()
-			select {
-			case res = <-done:
-				break loop
-			default:
+	if len(reg.steps) >= 2 {
+		classes["push_sequence_2plus"] = true
+	}
+	repaired := false
+	pushedTo := map[string]map[string]bool{} // blob hex -> repositories an earlier push of this history listed it for
+	finalsOK := 0
+	for si, st := range reg.steps {
+		reg.beginStep(si)
+		seedStoreAt(dir, st.version, st.target)
+		if len(st.from) > 0 {
+			classes["layer_with_from"] = true
+		}
+		if st.spec.Present != 0 {
+			classes["registry_already_has_some_layer"] = true
+		}
+		for _, b := range st.version.Layers {
+			for repo := range pushedTo[b.Hex] {
+				if repo != st.target.Repo() {
+					classes["same_digest_other_repo"] = true
+				}
 			}
-			pend := reg.Pending()
-			if len(pend) == 0 {
-				if idle > 1200*time.Second {
+			reg.mu.Lock()
+			if into, ok := reg.mountedEver[b.Hex]; ok && into != st.target.Repo() && !reg.has(st.target.Repo(), b.Hex) {
+				// the situation in which a stale "done" upload left by a mount would be consulted
+				classes["mounted_digest_pushed_to_repo_lacking_it"] = true
+			}
+			reg.mu.Unlock()
+		}
+		for _, b := range st.version.Layers {
+			if pushedTo[b.Hex] == nil {
+				pushedTo[b.Hex] = map[string]bool{}
+			}
+			pushedTo[b.Hex][st.target.Repo()] = true
+		}
+		nd, isNamed := drv.(NamedPushDriver)
+		if !isNamed && st.target != pushTargets[0] {
+			return info, violf("", "harness: this driver can only push %s", Name)
+		}
+		for ai := 0; ai <= len(st.spec.Attempts); ai++ {
+			final := ai == len(st.spec.Attempts)
+			reg.begin(si, ai)
+			ctx, cancel := context.WithCancel(context.Background())
+			var done <-chan error
+			if isNamed {
+				done = nd.BeginPush(ctx, st.target.Name())
+			} else {
+				done = drv.Begin(ctx)
+			}
+			var res error
+			var idle time.Duration
+			step := 20 * time.Millisecond
+			cancelled := false
+			cursor := 0
+		loop:
+			for {
+				synctest.Wait()
+				select {
+				case res = <-done:
+					break loop
+				default:
+				}
+				pend := reg.Pending()
+				if len(pend) == 0 {
+					if idle > 1200*time.Second {
+						cancel()
+						synctest.Wait()
+						return info, violf("", "push %s wedged: nothing withheld and no result after %v of virtual time", reg.where(), idle)
+					}
+					time.Sleep(step)
+					idle += step
+					if step < time.Second {
+						step *= 2
+					}
+					continue
+				}
+				idle, step = 0, 20*time.Millisecond
+				if cancelled {
 					cancel()
-					synctest.Wait()
-					return info, violf("", "push attempt %d wedged: nothing withheld and no result after %v of virtual time", ai, idle)
+					return info, violf("", "harness: answer still withheld after cancel: %v", pend)
 				}
-				time.Sleep(step)
-				idle += step
-				if step < time.Second {
-					step *= 2
+				act := Act{Op: "rel"}
+				if s := reg.cur.script; s != nil && cursor < len(s.Acts) {
+					act = s.Acts[cursor]
+					cursor++
 				}
-				continue
+				classes["gate_reached"] = true
+				if act.Op == "cancel" {
+					reg.Note("  harness cancels the context")
+					classes["cancelled_at_gate"] = true
+					reg.cur.cancels++
+					cancel()
+					cancelled = true
+					continue
+				}
+				reg.Release(pend[mod(act.K, len(pend))])
 			}
-			idle, step = 0, 20*time.Millisecond
-			if cancelled {
-				cancel()
-				return info, violf("", "harness: answer still withheld after cancel: %v", pend)
-			}
-			act := Act{Op: "rel"}
-			if s := reg.cur.script; s != nil && cursor < len(s.Acts) {
-				act = s.Acts[cursor]
-				cursor++
-			}
-			classes["gate_reached"] = true
-			if act.Op == "cancel" {
-				reg.Note("  harness cancels the context")
-				classes["cancelled_at_gate"] = true
-				reg.cur.cancels++
-				cancel()
-				cancelled = true
-				continue
-			}
-			reg.Release(pend[mod(act.K, len(pend))])
-		}
-		cancel()
-		synctest.Wait()
-		if env.SettleS > 0 {
-			time.Sleep(time.Duration(env.SettleS) * time.Second)
+			cancel()
 			synctest.Wait()
-		}
-		reg.Note("push attempt %d ended: %v", ai, res)
-		reg.mu.Lock()
-		a := reg.cur
-		viol := reg.viol
-		for k := range reg.classes {
-			classes[k] = true
-		}
-		if len(a.gates) > 1 {
-			classes["several_answers_withheld"] = true
-		}
-		if a.layerFault {
-			classes["push_with_failing_layer_request"] = true
-		}
-		if len(a.failed) > 0 {
-			classes["push_with_failed_layer"] = true
-			info.Nontrivial = true
-			if len(a.accepted) > 0 {
-				classes["push_with_failed_and_accepted_layers"] = true
+			if env.SettleS > 0 {
+				time.Sleep(time.Duration(env.SettleS) * time.Second)
+				synctest.Wait()
 			}
-		}
-		for _, how := range a.accepted {
+			reg.Note("%s ended: %v", reg.logWhere(), res)
+			reg.mu.Lock()
+			a := reg.cur
+			viol := reg.viol
+			for k := range reg.classes {
+				classes[k] = true
+			}
+			if len(a.gates) > 1 {
+				classes["several_answers_withheld"] = true
+			}
+			if a.layerFault {
+				classes["push_with_failing_layer_request"] = true
+			}
+			if len(a.failed) > 0 {
+				classes["push_with_failed_layer"] = true
+				info.Nontrivial = true
+				if len(a.accepted) > 0 {
+					classes["push_with_failed_and_accepted_layers"] = true
+				}
+			}
+			for _, how := range a.accepted {
+				switch {
+				case strings.Contains(how, "mounted"):
+					classes["accepted_by_mount"] = true
+				case strings.Contains(how, "exists"):
+					classes["accepted_by_exists_answer"] = true
+				case strings.Contains(how, "HEAD"):
+					classes["accepted_by_head_hit"] = true
+				case strings.Contains(how, "commit"):
+					classes["accepted_by_commit"] = true
+				case strings.Contains(how, "PUT"):
+					classes["accepted_by_upload"] = true
+				}
+			}
+			if a.manifests > 0 && !a.manifestOK {
+				classes["manifest_put_failed"] = true
+			}
+			if res == nil {
+				classes["push_ok"] = true
+			} else {
+				classes["push_failed"] = true
+			}
+			var verr error
 			switch {
-			case strings.Contains(how, "exists"):
-				classes["accepted_by_exists_answer"] = true
-			case strings.Contains(how, "HEAD"):
-				classes["accepted_by_head_hit"] = true
-			case strings.Contains(how, "commit"):
-				classes["accepted_by_commit"] = true
-			case strings.Contains(how, "PUT"):
-				classes["accepted_by_upload"] = true
+			case viol != nil:
+				verr = viol
+			case res == nil && !a.manifestOK:
+				verr = violf("", "push %s reported success but the registry accepted no manifest in it", reg.where())
+			case res == nil && !sameLayers(reg.stored, reg.Version):
+				verr = violf("", "push %s reported success but the registry's manifest does not list the local layers", reg.where())
+			case res != nil && a.manifestOK && a.cancels == 0:
+				// a push that failed although the registry accepted the manifest is not a safety
+				// violation of this property; it is counted
+				classes["push_failed_after_manifest_accepted"] = true
+			}
+			if verr == nil && final && res != nil {
+				reg.logf("final push failed: %v", res)
+				if len(reg.steps) == 1 && len(c.Pushes) == 0 {
+					verr = violf("", "the fault-free final push failed (error in the event log)")
+				} else {
+					verr = violf("", "the fault-free final attempt of push %d failed (error in the event log)", si)
+				}
+			}
+			mounted := append([]string{}, a.mounted...)
+			reg.mu.Unlock()
+			if verr != nil {
+				return info, verr
+			}
+			if final && res == nil {
+				finalsOK++
+			}
+			if len(mounted) > 0 && env.DropUpload != nil && env.Known != nil && env.Known(SlugMountStale) {
+				// exclusion by construction of SlugMountStale: what a fixed uploadBlob does itself when Prepare reports the
+				// blob mounted - the finished upload does not stay registered under the digest
+				for _, h := range mounted {
+					if env.DropUpload("sha256:" + h) {
+						repaired = true
+					}
+				}
 			}
 		}
-		if a.manifests > 0 && !a.manifestOK {
-			classes["manifest_put_failed"] = true
-		}
-		if res == nil {
-			classes["push_ok"] = true
-		} else {
-			classes["push_failed"] = true
-		}
-		var verr error
-		switch {
-		case viol != nil:
-			verr = viol
-		case res == nil && !a.manifestOK:
-			verr = violf("", "push attempt %d reported success but the registry accepted no manifest in it", ai)
-		case res == nil && !sameLayers(reg.stored, reg.Version):
-			verr = violf("", "push attempt %d reported success but the registry's manifest does not list the local layers", ai)
-		case res != nil && a.manifestOK && a.cancels == 0:
-			// a push that failed although the registry accepted the manifest is not a safety
-			// violation of this property; it is counted
-			classes["push_failed_after_manifest_accepted"] = true
-		}
-		if verr == nil && final && res != nil {
-			reg.logf("final push failed: %v", res)
-			verr = violf("", "the fault-free final push failed (error in the event log)")
-		}
-		reg.mu.Unlock()
-		if verr != nil {
-			return info, verr
-		}
-		if final && res == nil {
-			classes["final_push_ok"] = true
-		}
+	}
+	if repaired {
+		env.Excluded(SlugMountStale)
+		classes["stale_upload_entry_removed_by_harness"] = true
+	}
+	if finalsOK == len(reg.steps) {
+		classes["final_push_ok"] = true
 	}
 	return info, nil
 }
